@@ -156,7 +156,9 @@ def gen_history(r, nops, hostile):
                 ops.append({"op": "mkfile", "rel": f"repo/inplace/p{n}.yaml", "content": f"{{v: {200 + n}}}\n"})
                 ops.append({"op": "ingest", "mode": "inplace", "ks": [newk(d)], "refs": [d], "rel": f"inplace/p{n}.yaml"})
         elif x < 0.66:
-            ks = some(lambda v: v["st"] == "live" and not v.get("direct") and not v.get("zip"), 2, 3)
+            # (datasets in a run with '%' may be aliases of one artifact in two runs: Butler.ingest_zip refuses such a zip
+            #  with "refs must all share the same run" before the datastore is involved)
+            ks = some(lambda v: v["st"] == "live" and not v.get("direct") and not v.get("zip") and "%" not in v["d"]["run"], 2, 3)
             if len(ks) >= 2:
                 nz[0] += 1
                 z = nz[0]
@@ -196,7 +198,8 @@ def gen_history(r, nops, hostile):
         elif len(live_runs) > 1:
             run = r.choice(live_runs)
             live_runs.remove(run)
-            ks = sorted(k for k, v in ds.items() if v["d"]["run"] == run and v["st"] != "gone")
+            # every dataset ever created in the run: a purged one may have come back through a zip re-ingest
+            ks = sorted(k for k, v in ds.items() if v["d"]["run"] == run)
             ops.append({"op": "removerun", "run": run, "ks": ks})
             for v in ds.values():
                 if v["st"] == "trashed":
